@@ -303,6 +303,10 @@ func main() {
 			ki := matchKnown(known, cfg.Property, v)
 			confirmed := true
 			var dir string
+			if *noReplay || hc.NoReplay {
+				// schedule counterexamples: the replay directory holds tape and schedule
+				dir = writeReplay(*verifDir, *repoDir, cfg, hc, hs, v, fmt.Sprintf("%d", i))
+			}
 			if !*noReplay && !hc.NoReplay {
 				dir = writeReplay(*verifDir, *repoDir, cfg, hc, hs, v, fmt.Sprintf("%d", i))
 				ok, out := runReplayDir(*repoDir, dir)
